@@ -138,7 +138,7 @@ func IntFromString(str string, base int) (Object, error) {
 		convertBase = 10
 		// Detect leading zeros which Python doesn't allow using base 0
 		// (only for decimal literals: after a 0x/0o/0b prefix they are fine)
-		if len(s) > 1 && s[0] == '0' && (s[1] >= '0' && s[1] <= '9') {
+		if len(s) > 1 && s[0] == '0' && (s[1] >= '0' && s[1] <= '9') && strings.Trim(s, "0") != "" {
 			goto error
 		}
 	}
